@@ -14,6 +14,9 @@ CHECKS = {
  "C04": ("exploration", "metamorphic monitor over histories: pristine vs after-real-history vs poisoned pools (verif hooks), plus immutability re-observation",
    "The same call is executed on pristine state, after a real history of other calls in the same process (GOMAXPROCS=1, GC off, so sync.Pool returns the same objects) and under poisoned pools; canonical observations must be identical. Returned Exif/XMP/preview values are re-observed after later calls.",
    "Trusted: the verif hooks (add-only) that replace pool variables at quiescent points; poison contents are states a legal earlier decode can leave.", "3/C04"),
+ "C05": ("exploration", "Go race detector (-race build, reports parsed from GORACE log_path and de-duplicated by imagemeta frame pair) over a barrier-started, result-checking stress workload; per-call comparison with sequential golden observations; idle-deadlock watchdog",
+   "Rounds of 2-64 goroutines under GOMAXPROCS 1-32 perform seeded mixes of every decode/scan/parse/sniff/hash entry point on their own readers (valid, truncated, mutated files; TIFFs with fresh and conflicting OffsetTime strings so that zone-cache misses overlap; images for all hash functions) with yields injected at the reader boundary; the race detector must stay silent, every result must equal the result of the same call run alone on pristine state, nothing may panic, and a round must not stall CPU-idle. Evidence reports the overlap actually achieved (distinct in-flight signatures, completion orders, overlapping cache misses).",
+   "Trusted: the Go race detector (reports only races that occur); schedules are sampled, not enumerated; goldens come from the same binary run sequentially.", "3/C05"),
  "C06": ("exploration", "differential + reference-model monitor across containers built by the harness",
    "One generated Exif payload is embedded in TIFF, JPEG, PNG, CR3 and HEIF files written by the harness with random surroundings; every container's decode entry points must report the same fields as the bare TIFF and as the reference expectation, with the container's image type.",
    "Trusted: the harness's container writers (JPEG segments, PNG chunks with CRCs, ISOBMFF boxes); CR3 stores the three directories as three TIFF blobs.", "3/C06"),
